@@ -15,7 +15,8 @@ the correspondence run.
   every op: `ctxser <rt|de> entry=<e> lists=<n> class=<c> fields=<n> len=<n> case=<n> shard=<n> F L [doc]`
   (`lists … shard` are labels, ignored here)
 
-  `ctxser rt entry=<str|slice|reader|value> … F L`
+  `ctxser rt entry=<str|slice|reader|value|capi> … F L`   (`capi`: the C API entry point, which
+        reads like `reader`; the harness overwrites the caller's buffer after the call)
         answer `rt verdict=same text=<hex of the compact JSON of serCtx>`
         — the *property's* demand: the serialized context deserializes to an equal context
         whatever the entry point.  (For `entry=value` with a list in the scheme the model
@@ -447,7 +448,7 @@ def ctxBeq (a b : Ctx MState) : Bool :=
 
 def parseEntry (s : String) : Option String :=
   match splitOnChar s '=' with
-  | ["entry", e] => if e == "str" ∨ e == "slice" ∨ e == "reader" ∨ e == "value" then some e else none
+  | ["entry", e] => if e == "str" ∨ e == "slice" ∨ e == "reader" ∨ e == "value" ∨ e == "capi" then some e else none
   | _ => none
 
 def setup (f l : String) : Option (Scheme MState × Ctx MState) := do
